@@ -2,6 +2,8 @@
 # offline setup: build the library configurations and the harness from /repo's tree
 cd "$(dirname "$0")"
 if [ -x /opt/veriftools/pyvenv/bin/python ]; then PY=/opt/veriftools/pyvenv/bin/python; else PY=python3; fi
-$PY lib/vlib.py plain plain-noslack || exit 1
+$PY lib/vlib.py plain plain-noslack shared || exit 1
 $PY lib/hbuild.py plain || exit 1
+$PY lib/hbuild.py plain-noslack || exit 1
+$PY lib/hbuild.py shared || exit 1
 echo setup ok
